@@ -14,6 +14,7 @@ static mut SENT_ACTIONS: usize = 0;
 static mut SENT_EXITS: usize = 0;
 static mut LAST_ACTION: u8 = 0;
 static mut SLOT_EMPTY_AT_EXIT: usize = 0;
+static mut SENT_WITH_SLOT_EMPTY: usize = 0;
 static mut STUB_RESULT_OK: bool = true;
 
 fn send_stub<T: Send + Sync + Clone + 'static>(
@@ -23,8 +24,14 @@ fn send_stub<T: Send + Sync + Clone + 'static>(
     unsafe {
         SENDS += 1;
         if let Some(p) = LOCK_PROBE {
-            if (*p).try_lock().is_err() {
-                SENT_UNDER_LOCK += 1;
+            match (*p).try_lock() {
+                Err(_) => SENT_UNDER_LOCK += 1,
+                Ok(slot) => {
+                    // not under the lock, but the sender slot has already been emptied: nobody can hand anything over any more
+                    if slot.is_none() {
+                        SENT_WITH_SLOT_EMPTY += 1;
+                    }
+                }
             }
         }
         match &item {
@@ -175,7 +182,7 @@ fn lock_close() {
     unsafe {
         if open {
             assert!(SENDS == 1 && SENT_EXITS == 1 && SENT_ACTIONS == 0, "[O-C04-k-close-exit-once C04] first close: exactly one Exit marker is handed over");
-            assert!(SENT_UNDER_LOCK == 1, "[O-C04-k-close-exit-under-lock C04 C02 C05] the Exit marker is handed over while dispatch_tx is locked (no action can slip in behind it)");
+            assert!(SENT_UNDER_LOCK + SENT_WITH_SLOT_EMPTY == 1, "[O-C04-k-close-exit-under-lock C04 C02 C05] the Exit marker is handed over while dispatch_tx is locked, or after the sender slot has been emptied (no action can slip in behind it)");
         } else {
             assert!(SENDS == 0, "[O-C04-k-close-idempotent C04] closed store: close hands nothing over");
         }
